@@ -55,6 +55,7 @@ type env struct {
 	s1, s2                *world.Actor
 	deadline              time.Time
 	capped                bool
+	dupMode               bool // part (a): snapshot entries list two accounts on the target chain
 	samples               map[string]int
 }
 
